@@ -209,7 +209,7 @@ def ill_formed_variants(rnd, tree, text):
 
 def run(ctx):
     fl = import_library()
-    nform = ctx.scale(4000, 100_000)
+    nform = ctx.scale(4000, 400_000)
     depth = 5
     ctx.rule = (
         f"every Function.load / membership / evaluate call observed. Workload: {nform} well-typed formulas printed from random expression trees (depth <= {depth}) "
